@@ -566,6 +566,9 @@ def check(ctx):
     ctx.rule("R4", "fresh assembly per attempt: every (re)send is preceded by re-initialising accumulator and expected index")
     ctx.rule("R5", "bounded attempts: async retry loop has a strict variant with one fresh send per attempt; sync resends go through the counted retry() whose refusal raises")
     ctx.rule("R6", "simulator chain: modulus of `next` equals the number of segments for every length (residue-indexed affine domain, all residues mod the segment size), header/payload slices per segment")
+    ctx.rule("R7", "the segment payload reaches the assembler whole: the packet framing that every STATV passes through is DOTALL, its DATAS group is the last and greedy, earlier groups cannot overrun - a payload may contain any byte string, </DATAS> included (C04's framing-regex rule borrowed)")
+    from .c04 import framing as _framing
+    _framing(ctx.borrowed("R7", "C04", only=("R5",)), repo)
     async_assembly(ctx, repo)
     # the completed assembler keeps its segment list until the engine's clean-up removes the handler: the engine must
     # not dispatch a second datagram before that (engine model, vlib/enginemodel.py)
